@@ -19,8 +19,8 @@ ASSUMPTIONS = _x1.X1_ASSUMPTIONS + ["the release of a suspension is not a 'resum
 P = [("pause",), ("dpause",), ("suspend", "none")]
 SPECS = {
     "quick": [spec(k, P, bound=1, ri=1) for k in ("tiny", "planpause", "count2", "nested", "tworuns", "cpspace")]
-    + [spec("tiny", P, bound=1, ri=0)],
-    "thorough": [spec(k, P, bound=3, ri=1) for k in ("tiny",)]
+    + [spec("tiny", P, bound=1, ri=0), spec("tiny", P, bound=2, ri=1)],
+    "thorough": [spec(k, [("pause",), ("suspend", "none")], bound=3, ri=1) for k in ("tiny",)]
     + [spec(k, P, bound=2, ri=1) for k in ("count2", "nested", "tworuns", "planpause", "cpspace")]
     + [spec(k, P, bound=1, ri=1, a=1) for k in ("count2", "nested", "tworuns", "scan2", "monitor2")]
     + [spec(k, P, bound=2, ri=0) for k in ("tiny", "nested")],
